@@ -117,6 +117,21 @@ def main(run):
         for a in (acts if n == 3 else run.rng.sample(acts, 3)):
             run.prove(f"env.step_unstep[n={n},a={a}]", E.sc_env_step_unstep, {"n": n, "computer": "superadditive_cached",
                                                                             "gap": "exploitability", "action": a})
+    # whole histories of step/unstep (also non-nested undo orders): the view depends on the current knowledge only
+    hist = [h for L in (2, 3, 4) for h in E.all_histories(3, L)]
+    if quick:
+        hist = [h for h in hist if any(k == "u" for k, _ in h)]
+    for h in hist:
+        tag = "".join(f"{k}{j}" for k, j in h)
+        run.prove(f"env.history[n=3,{tag}]", E.sc_env_history, {"n": 3, "computer": "superadditive_cached", "gap": "exploitability", "ops": h})
+    for _ in range(3 if quick else 20):
+        h, chosen = [], set()
+        for _ in range(run.rng.randint(4, 6)):
+            j = run.rng.randrange(10)
+            h.append(["u" if j in chosen else "s", j])
+            chosen ^= {j}
+        tag = "".join(f"{k}{j}" for k, j in h)
+        run.prove(f"env.history[n=4,{tag}]", E.sc_env_history, {"n": 4, "computer": "superadditive_cached", "gap": "l1_norm", "ops": h})
     run.discharge()
     rows = []
     for comp in ALL:
